@@ -287,10 +287,16 @@ namespace sbepp
 #    define SBEPP_ASSERT(expr) assert(expr)
 #endif
 
-#define SBEPP_SIZE_CHECK(begin, end, offset, size) \
-    SBEPP_ASSERT(                                  \
-        (begin) && ((begin) <= (end))              \
-        && (((offset) + (size)) <= static_cast<std::size_t>((end) - (begin))))
+// `offset` and `size` are compared separately because their sum can wrap
+// around when `size` comes from the buffer (e.g. 64-bit `<data>` length)
+#define SBEPP_SIZE_CHECK(begin, end, offset, size)                          \
+    SBEPP_ASSERT(                                                           \
+        (begin) && ((begin) <= (end))                                       \
+        && (static_cast<std::size_t>(size)                                  \
+            <= static_cast<std::size_t>((end) - (begin)))                   \
+        && (static_cast<std::size_t>(offset)                                \
+            <= (static_cast<std::size_t>((end) - (begin))                   \
+                - static_cast<std::size_t>(size))))
 
 //! @brief The main `sbepp` namespace
 namespace sbepp
@@ -3501,8 +3507,8 @@ public:
         SBEPP_SIZE_CHECK(
             (*this)(addressof_tag{}),
             (*this)(end_ptr_tag{}),
-            0,
-            sizeof(size_type) + count);
+            sizeof(size_type),
+            count);
         set_primitive<E>((*this)(addressof_tag{}), count);
     }
 
@@ -3624,8 +3630,8 @@ public:
         SBEPP_SIZE_CHECK(
             (*this)(detail::addressof_tag{}),
             (*this)(detail::end_ptr_tag{}),
-            0,
-            sizeof(size_type) + ilist.size());
+            sizeof(size_type),
+            ilist.size());
         assign(std::begin(ilist), std::end(ilist));
     }
 
@@ -3691,8 +3697,8 @@ private:
         SBEPP_SIZE_CHECK(
             (*this)(detail::addressof_tag{}),
             (*this)(detail::end_ptr_tag{}),
-            0,
-            sizeof(size_type) + size());
+            sizeof(size_type),
+            size());
         return data_unchecked();
     }
 
